@@ -709,7 +709,9 @@ fn setup_space_list_check(
                     && last_left != current_group;
                 // an expression ending in a unary suffix is complete as well
                 let is_suffix_value = left_node.secondary_definition == SecondaryDefinition::UnarySuffix;
-                if is_value || is_group_value || is_suffix_value {
+                // and so is a side effect block together with the operand it took over
+                let is_block_value = left_node.definition == Definition::SideEffect && left_node.left.is_some() && last_left != current_group;
+                if is_value || is_group_value || is_suffix_value || is_block_value {
                     trace!(
                         "Value-like definition {:?} found. Will check next token for value-like to make list",
                         left_node.definition
